@@ -333,7 +333,15 @@ def c03(payload):
             n = len(m0.pulses)
             gnd = [i for i, p in enumerate(m0.pulses) if p.ground.any()]
             gen.add_sources(rng, spec, n, grounded=gnd)
-            spec['loads'] = []
+            # lumped loads, preferably on pulses at a grounded wire end (of wires described bottom-up and top-down alike):
+            # in the mirror model a load on the ground pulse is in series with its image (2 Z at the centre pulse), any other
+            # load has an image load
+            lp = []
+            if rng.random() < 0.6:
+                cand_ = gnd if (gnd and rng.random() < 0.7) else list(range(n))
+                for pidx in rng.sample(cand_, min(len(cand_), rng.choice([1, 1, 2]))):
+                    lp.append((pidx, complex(rng.uniform(5, 200), rng.uniform(-100, 100))))
+            spec['loads'] = [dict(kind='imp', z=[z_.real, z_.imag], attach=[[pidx]]) for pidx, z_ in lp]
             r['spec'] = spec
             G = _solve(spec)
             cond = float(np.linalg.cond(G.Z)); tol = _tol(cond)
@@ -389,6 +397,17 @@ def c03(payload):
                     vm = s.voltage * sgm
                     srcs.append(dict(pulse=int(qm.idx), tag=None, v=[vm.real, vm.imag]))
             fs['sources'] = srcs
+            fl = []
+            for pidx, z_ in lp:
+                p = G.pulses[pidx]; pt = np.array(p.point, dtype=float); d = _pdir(p)
+                q = find(pt, d)
+                if p.ground.any():
+                    fl.append(dict(kind='imp', z=[2 * z_.real, 2 * z_.imag], attach=[[int(q.idx)]]))
+                else:
+                    fl.append(dict(kind='imp', z=[z_.real, z_.imag], attach=[[int(q.idx)]]))
+                    qm = find(pt * np.array([1, 1, -1.0]), d * np.array([-1, -1, 1.0]))
+                    fl.append(dict(kind='imp', z=[z_.real, z_.imag], attach=[[int(qm.idx)]]))
+            fs['loads'] = fl
             Fm = _solve(fs)
             bad = []
             ref = np.abs(G.current).max()
